@@ -267,6 +267,28 @@ async fn run_client_h2(stim: &Value, log: &Rec) {
     srv.abort();
 }
 
+/// mode "mock": the generated client talks to a canned http response (C05 response side, C04 classification through the client)
+async fn run_mock(stim: &Value, log: &Rec) {
+    let m = stim["mock"].clone();
+    let svc = tower::service_fn(move |_req: http::Request<Body>| {
+        let m = m.clone();
+        async move {
+            let mut q = std::collections::VecDeque::new();
+            for c in m["body_chunks"].as_array().cloned().unwrap_or_default() { q.push_back(crate::labs::framing::BItem::Data(json_bytes(&c))); }
+            if m["trailers"].is_array() {
+                let mut t = http::HeaderMap::new();
+                for h in m["trailers"].as_array().cloned().unwrap_or_default() { if let (Ok(n), Ok(v)) = (http::header::HeaderName::from_bytes(h["n"].as_str().unwrap_or("").as_bytes()), http::HeaderValue::from_bytes(&json_bytes(&h["v"]))) { t.append(n, v); } }
+                q.push_back(crate::labs::framing::BItem::Trailers(t));
+            }
+            let body = crate::labs::framing::ScriptBody { items: q, polls_after_end: Default::default(), ended: false };
+            let mut b = http::Response::builder().status(m["status"].as_u64().unwrap_or(200) as u16);
+            for h in m["headers"].as_array().cloned().unwrap_or_default() { if let (Ok(n), Ok(v)) = (http::header::HeaderName::from_bytes(h["n"].as_str().unwrap_or("").as_bytes()), http::HeaderValue::from_bytes(&json_bytes(&h["v"]))) { b = b.header(n, v); } }
+            Ok::<_, BoxErr>(b.body(Body::new(body)).unwrap())
+        }
+    });
+    drive_client(SvcClient::new(svc), stim, log).await;
+}
+
 async fn run_raw(stim: &Value, log: &Rec) {
     let svc = build_server(stim, log);
     let mut stack = stack_of(svc);
@@ -313,6 +335,7 @@ pub fn run(stim: &Value, rec: &Rec) {
     block_on_paused(async {
         match (mode, transport) {
             ("raw", _) => run_raw(stim, rec).await,
+            ("mock", _) => run_mock(stim, rec).await,
             (_, "h2") => run_client_h2(stim, rec).await,
             _ => run_client_inproc(stim, rec).await,
         }
